@@ -207,8 +207,7 @@ def r3_fresh_and_units(c, facts):
     c.run(lambda c: c15.changes_in_order(c, facts, R))
     sc = ['oal_client::lsp::unicode::position_to_utf8', 'oal_client::lsp::unicode::utf8_to_position', 'oal_client::lsp::unicode::utf8_range_to_position',
           'oal_client::lsp::handlers::syntax_at', 'oal_client::lsp::handlers::node_location', 'oal_client::lsp::handlers::go_to_definition', 'oal_client::lsp::handlers::references']
-    c16.run_units(c, facts, rule_prefix='C17.U', scope=sc, must=sc[:3])
-    c.violations = [v for v in c.violations if not (v['key'].startswith('C17.U.') and ':floor:' in v['key'])]
+    c16.run_units(c, facts, rule_prefix='C17.U', scope=sc, must=sc[:3], floors=False)
 
 
 def run(c, facts):
